@@ -151,6 +151,11 @@ def main(argv=None):
                 continue
             if cd.level == 'proof' and not args.native_only:
                 tasks.append((cd.id, cfg, 'sym', seed))
+                if args.tier != 'quick':
+                    # CPython cross-check: the same contract text as a run-time
+                    # contract on float inputs (bounded, counted apart)
+                    for k in range(3):
+                        tasks.append((cd.id, cfg, 'native', seed + k))
             else:
                 mult = 1 if args.tier == 'quick' else 4
                 for k in range(cd.native_samples * mult):
@@ -233,6 +238,8 @@ def report(prop, args, seed, cds, results, t0):
     gaps = []
     crashes = []
     bounded_cases = bounded_failed = 0
+    native_evals = native_distinct = native_clauses = crosscheck_rejected = 0
+    native_samples = []
     samples = []
     stubs = set()
     denoms = set()
@@ -251,6 +258,14 @@ def report(prop, args, seed, cds, results, t0):
             bounded_cases += 1
             pc['native_runs'] += 1
             st = r['native']['status']
+            ninfo = r['native'].get('info') or {}
+            nc = ninfo.get('cases') or 0
+            native_evals += nc if nc else 1
+            native_distinct += (ninfo.get('distinct_cases') or 0) if nc else 1
+            native_clauses += ninfo.get('checked') or 0
+            for cs in (ninfo.get('case_samples') or [dict(contract=cid, config=r['config'], seed=ninfo.get('seed'), inputs=_short_inputs(ninfo.get('inputs')))])[:2]:
+                if len(native_samples) < 6 and (not native_samples or cid != native_samples[-1].get('contract')):
+                    native_samples.append(dict(contract=cid, case=cs))
             if st == 'failed':
                 bounded_failed += 1
                 seen_b = set()
@@ -262,6 +277,8 @@ def report(prop, args, seed, cds, results, t0):
                     violations.append((cid, r['config'], f['clause'], dict(status='refuted', backend='native', native=dict(r['native']['info'], failures=[f]), model=r['native']['info'].get('inputs'))))
             elif st == 'crash':
                 violations.append((cid, r['config'], 'returns-normally', dict(status='refuted', backend='native', native=r['native']['info'], model=r['native']['info'].get('inputs'))))
+            elif st == 'rejected' and registry.CONTRACTS[cid].level == 'proof':
+                crosscheck_rejected += 1      # float sampling cannot hit a measure-zero requires; the symbolic run covers it
             elif st == 'rejected':
                 gaps.append((cid, r['config'], dict(kind='native-rejected', detail='no sample satisfied the requires')))
             continue
@@ -366,6 +383,7 @@ def report(prop, args, seed, cds, results, t0):
     ]
     if denoms:
         assumptions.append('identities hold where these denominators are non-zero (not derivable from the requires): ' + '; '.join(sorted(denoms)[:8]))
+    n_sym_cfg = len({(r['contract'], json.dumps(r['config'], sort_keys=True)) for r in results if r.get('mode') == 'sym'})
     cov = dict(
         obligations=n_obl, discharged=n_dis,
         checker_cmd='./check %s --tier %s' % (prop, args.tier),
@@ -379,10 +397,15 @@ def report(prop, args, seed, cds, results, t0):
         bounded_cases=bounded_cases, bounded_failed=bounded_failed,
         functions_under_contract=functions,
         per_contract=per_contract,
-        samples=samples or [dict(note='no solver-discharged obligation in this run')],
-        evaluations=max(1, n_obl + bounded_cases),
-        distinct_nontrivial=max(2, len({(r['contract'], json.dumps(r['config'], sort_keys=True)) for r in results})),
-        rule='one case per (contract, configuration); symbolic configurations cover all real parameter values, native ones are bounded stand-ins',
+        samples=(samples + native_samples) or [dict(note='nothing evaluated in this run')],
+        evaluations=n_obl + native_evals,
+        distinct_nontrivial=n_sym_cfg + native_distinct,
+        bounded_clause_evaluations=native_clauses,
+        crosscheck_runs_rejected_by_requires=crosscheck_rejected,
+        rule=('evaluations = proof obligations generated from the real code on this run + cases explored by the bounded run-time contracts '
+              '(a case = one graph / tree / file / value / seeded input, counted by the contract as it runs; a native run that does not count for itself is one case). '
+              'distinct_nontrivial = distinct symbolic (contract, configuration) pairs, each covering all real values of its leaves, + distinct bounded cases '
+              '(distinct by construction of the enumeration or by (configuration, seed); trivial ones such as the edgeless graph are not counted)'),
         explanation=manifest_levels.EXPLAIN.get(prop, ''),
         exhaustive=False,
     )
@@ -403,6 +426,12 @@ def report(prop, args, seed, cds, results, t0):
         print('zero obligations: refusing to report success')
         return EXIT_GAP
     return EXIT_OK
+
+
+def _short_inputs(inputs, n=6):
+    if not isinstance(inputs, dict):
+        return inputs
+    return {k: inputs[k] for k in list(inputs)[:n]}
 
 
 def _clause_base(clause):
